@@ -60,6 +60,18 @@ Proof.
   intros nd. apply (run_full_no_overflow courses parts V esize shrinkf None nd Hs).
 Qed.
 
+(* the final form: validity, not TC and the size bound (all but three validity clauses are what the program's own input check
+   establishes) -- scores fit the Score type u32 under the size bound, so no hypothesis about smax remains *)
+Theorem C02_final : forall courses parts esize shrinkf smin k st,
+  Valid courses parts -> in_tc courses parts = false -> SizeOK courses parts ->
+  SReach courses parts esize shrinkf None smin 4294967295%Z k st -> 0 < k -> final st ->
+  forall K a, HardOK_K courses parts K a -> (forall c, K c = true -> c < nc courses /\ c_fixed (crs courses c) = false) ->
+  EngP2.best node assignment st <> None /\ (score_of courses parts a <= EngP2.bscore node assignment st)%Z.
+Proof.
+  intros courses parts esize shrinkf smin k st V Htc Hs. apply (C02_sized courses parts esize shrinkf smin 4294967295%Z k st V Htc Hs).
+  intros a. apply (score_fits_u32 courses parts V a Hs).
+Qed.
+
 (* the defect D2 on the faithful model: a valid instance of class TC that has a hard-feasible assignment (cancel course 0, its
    instructor attends the fixed course 1) on which the search ends without solution for every worker count and interleaving *)
 Definition d2_courses := [ {| c_min := 0; c_max := 1; c_instr := [1]; c_fixed := false |}; {| c_min := 1; c_max := 3; c_instr := []; c_fixed := true |} ].
@@ -86,8 +98,9 @@ Proof.
     rewrite Forall_forall in Hs. destruct (Hs nd Hin) as [-> | ->]; congruence.
 Qed.
 
-Check C02_partial. Check C02_noTC. Check C02_sized. Check C02_refuted.
+Check C02_partial. Check C02_noTC. Check C02_sized. Check C02_final. Check C02_refuted.
 Print Assumptions C02_partial.
 Print Assumptions C02_noTC.
 Print Assumptions C02_sized.
+Print Assumptions C02_final.
 Print Assumptions C02_refuted.
